@@ -69,7 +69,19 @@ def symbols():
             sym[("D", d, i)] = W.message(d, i, rec + rec)
     for d in DOMS:
         sym[("W", d, 2)] = W.message(d, 2, W.template_body(2, []))
+    # keys that COLLIDE under a careless way of combining (observation domain, template id) into one key: a 32-bit
+    # shift-and-or (domains equal modulo 2^16), decimal concatenation (1|1256 = 11|256), sum / xor, an id or a domain
+    # narrowed to fewer bits, a signed domain (top bit set) - only the plain symbols A, B, X (bad template) and D
+    for (d, i) in COLLIDING:
+        sym[("A", d, i)] = W.message(d, 2, W.template_body(i, A))
+        sym[("B", d, i)] = W.message(d, 2, W.template_body(i, B))
+        sym[("X", d, i)] = W.message(d, 2, W.template_body(i, [u16, unknown]))
+        sym[("D", d, i)] = W.message(d, i, rec + rec)
     return sym
+
+
+COLLIDING = [(65537, 256), (0x00020001, 256), (0x80000001, 256), (0xFFFFFFFF, 256), (0xFFFF0001, 257), (1, 512), (257, 256), (1, 65535),
+             (11, 256), (1, 1256), (2, 255 + 256), (256, 257), (0, 256), (0, 257), (1 << 16, 256), (1 << 31, 256)]
 
 
 def nontrivial(hist):
@@ -85,13 +97,13 @@ def nontrivial(hist):
 def gen_cases(rng, tier):
     sym = symbols()
     allkeys = sorted(sym)
-    keys = [k for k in allkeys if k[0] not in "PQRSWU"]      # the exhaustive enumeration below (P/Q: see further down)
+    keys = [k for k in allkeys if k[0] not in "PQRSWU" and k[1:] not in COLLIDING]      # the exhaustive enumeration below (P/Q: see further down)
     cases = []
 
     def add(hist, label):
         # one history in three runs on a collector configured for udp (templates with a lifetime; same decoding)
         ops = ["dec new strict" + (" udp" if len(cases) % 3 == 1 else "")] + ["dec pkt " + sym[s].hex() for s in hist] + ["dec keys"]
-        if label in ("same-ids-other-enterprise", "random"):
+        if label in ("same-ids-other-enterprise", "random", "colliding-keys"):
             # ... and the content of what is stored for the keys the history touched (element identities)
             ops += ["dec tpl %d %d" % (d, i) for (d, i) in sorted({(k[1], k[2]) for k in hist})]
         cases.append(Case(ops, label, nontrivial(hist), True))
@@ -110,6 +122,19 @@ def gen_cases(rng, tier):
         for hist in itertools.product(one, repeat=n):
             if any(k[0] in "PQRSWU" for k in hist):
                 add(hist + (("D", 1, 256),), "same-ids-other-enterprise")
+    # colliding keys: for every ordered pair of DIFFERENT (domain, id) keys out of the core and the colliding ones - a template
+    # for the first, nothing / another template / a bad template for the second, then data for both (each key decodes with its
+    # own template or is refused; a bad template erases its own key only)
+    pool = [(d, i) for d in DOMS for i in IDS] + COLLIDING
+    for k1 in pool:
+        for k2 in pool:
+            if k1 == k2 or (k1 not in COLLIDING and k2 not in COLLIDING):
+                continue
+            for mid in ("", "B", "X", "BX"):
+                hist = (("A",) + k1,) + tuple((m,) + k2 for m in mid) + (("D",) + k1, ("D",) + k2)
+                if (len(cases) + len(mid)) % 2:
+                    hist = hist + (("X",) + k1, ("D",) + k2, ("D",) + k1)
+                add(hist, "colliding-keys")
     keys = allkeys                                       # the random histories draw from the whole alphabet
     nrand = 3000 if tier == "quick" else 40000
     maxlen = 40 if tier == "quick" else 200
